@@ -30,6 +30,9 @@ FIXED = [
     'b1=new2,sched2.3,sched2.4,bulk2.5.2,wait2,del2',
     'mult=32;sets=ctsH.4.0,ctsL.1.1,ctsL.1.1;throws=;d1=newpool2,new1,schedfq1.1,schedfq1.2,wait1,sync,del1,delpool;d2=await1,cancel1;'
     'b1=new2,schedfq2.3,sched2.4,wait2,del2;b2=new3,sched3.5,schedfq3.6,wait3,del3',
+    # cascade depth 2: set 1 -> set 2 (created in a task of 1) -> set 3 (created in a task of 2)
+    'mult=32;sets=ctsL.4.0,ctsL.4.1,ts.1.1;throws=;d1=newpool2,new1,schedfq1.1,wait1,sync,del1,delpool;d2=await1,cancel1;'
+    'b1=new2,schedfq2.2,wait2,del2;b2=new3,sched3.3,sched3.4,wait3,del3',
 ]
 
 
@@ -38,7 +41,8 @@ def run(ctx):
     exe = tc.build(ctx)
     cfgs = [('MC_seq0_cancel.cfg', 'deterministic program, kLightweight, repaired shape'),
             ('MC_seq0_cancel_heavy.cfg', 'deterministic program, kHeavy, repaired shape'),
-            ('MC_exc_cancel.cfg', 'cancel by exception, TaskSet')]
+            ('MC_exc_cancel.cfg', 'cancel by exception, TaskSet'),
+            ('MC_nested1.cfg', 'ParentCascadeCancel: set nested in a task, parent cancelled from a second thread')]
     if thorough:
         cfgs += [('MC_cts_cancel.cfg', 'ConcurrentTaskSet, second thread cancels at any point'),
                  ('MC_nested.cfg', 'ParentCascadeCancel through a set nested in a task'),
@@ -50,7 +54,7 @@ def run(ctx):
     g = tc.Gen(rng)
     n = 6 if thorough else 2
     r0 = tc.run_scenarios(ctx, exe, DETERMINISTIC, WHAT, 2, ctx.seed, 'deterministic cancel-overload-schedule')
-    r1 = tc.run_scenarios(ctx, exe, FIXED if thorough else FIXED[ctx.seed % 2::2], WHAT, n, ctx.seed + 1, 'fixed programs')
+    r1 = tc.run_scenarios(ctx, exe, FIXED if thorough else FIXED[ctx.seed % 2::2] + FIXED[-1:], WHAT, n, ctx.seed + 1, 'fixed programs')
     scens = [g.single(throws=0.15, cancel=0.9, nested=0.5, pools=(0, 1, 1, 2, 3)) for _ in range(60 if thorough else 8)]
     r2 = tc.run_scenarios(ctx, exe, scens, WHAT, n, ctx.seed + 2, 'random programs with cancels')
     ctx.cov['executions'] = {'deterministic': r0['executions'], 'fixed': r1['executions'], 'random': r2['executions']}
